@@ -78,6 +78,23 @@ def gen_tasks(ctx, rng, n_cfg, n_beh, make_groups, maxcalls, faults, hyper_keys,
     return tasks
 
 
+def exhaustive_tasks(ctx, rng, groups, depth, faults, hyper_keys, numeric=True, redraws=1):
+    """Bounded-exhaustive conformance: EVERY behaviour of `depth` actions of the draw's abstract configuration."""
+    d = family.make_draw(rng, groups)
+    ab = abstract_of(d)
+    moves = family.hyper_moves(d["groups"], hyper_keys) if hyper_keys else []
+    behs, res = behaviours.enumerate_all(ab, depth, faults=faults, moves=moves, tag=f"{ctx.prop}-enum")
+    ctx.add("bounded_exhaustive_behaviours", len(behs))
+    tasks = []
+    for beh in behs:
+        dd = copy.deepcopy(d)
+        if redraws:
+            dd["groups"] = [family.redraw_numeric(rng, g) for g in dd["groups"]]
+            dd["seed"] = rng.randrange(1 << 30)
+        tasks.append((dd, beh, {"numeric": numeric}))
+    return tasks
+
+
 def random_history(rng, draw, abstract, n_steps, faults=("fail",), hyper_keys=("mom", "b1", "wd", "lr")):
     """Inputs only (engine T): python-side random driver with persistent masks, occasional hyper changes and faults."""
     events = []
